@@ -1,6 +1,6 @@
 (* C18 proofs, part 1: the decision of `main`, and the boot-sector checksum step.
-   Facts about the memory map that C15 did not prove enter as the two named hypotheses Put_spec and IterRange_spec
-   (the statements of the header of Properties/C15.v, verbatim). *)
+   Facts about the memory map enter parts 1-3 as the two named hypotheses Put_spec and IterRange_spec (the statements
+   C15_put and C15_iter_range, verbatim); Bin/TriasProofs4.v discharges both from the C15 proofs. *)
 From Coq Require Import Arith NArith List Bool Lia ZifyBool ZifyNat ZifyN.
 From Trion Require Import Mem.MapModel Mem.DictSpec Mem.MapProofs Mem.MapProofs2.
 From Trion Require Import Uf2.CrcModel Uf2.CrcSpec Uf2.CrcProofs.
@@ -8,7 +8,7 @@ From Trion Require Import Bin.TriasModel Bin.ImageSpec.
 Import ListNotations.
 Open Scope N_scope.
 
-(* ---------------- hypotheses about MapModel (not proved by C15) ---------------- *)
+(* ---------------- hypotheses about MapModel (discharged in TriasProofs4.v: put_spec_holds, iter_range_spec_holds) ---------------- *)
 Definition Put_spec (dbg : bool) : Prop := forall m a data, Rep m -> a < U32 -> a + len data <= SPACE ->
   exists m' n, map_put dbg m a data = Ok (m', Some n) /\ Rep m' /\ d_put (abs m) a data = (abs m', Some n).
 Definition IterRange_spec (dbg : bool) : Prop := forall m f l, Rep m -> f <= l ->
